@@ -16,17 +16,99 @@ type Interval struct {
 type Intervals struct {
 	VarBounds func(name string) (lo, hi float64, ok bool)
 	memo      map[uint64]Interval
+	// Refinements valid under the path condition the analysis is used with: lower
+	// and upper bounds of individual terms read off comparison conjuncts.
+	RefLo, RefHi map[uint64]float64
+}
+
+// Learn records the bounds implied by one asserted conjunct (signed comparisons of
+// a term with a constant). It reports whether anything new was learned.
+func (ia *Intervals) Learn(c *Term) bool {
+	neg := false
+	if c.Op == OBNot {
+		neg = true
+		c = c.A[0]
+	}
+	if c.Op == OBAnd && !neg {
+		a := ia.Learn(c.A[0])
+		b := ia.Learn(c.A[1])
+		return a || b
+	}
+	if c.Op == OBOr && neg {
+		a := ia.Learn(Not(c.A[0]))
+		b := ia.Learn(Not(c.A[1]))
+		return a || b
+	}
+	setLo := func(t *Term, v float64) bool {
+		if old, ok := ia.RefLo[t.ID]; ok && old >= v {
+			return false
+		}
+		ia.RefLo[t.ID] = v
+		return true
+	}
+	setHi := func(t *Term, v float64) bool {
+		if old, ok := ia.RefHi[t.ID]; ok && old <= v {
+			return false
+		}
+		ia.RefHi[t.ID] = v
+		return true
+	}
+	if c.N != 2 || c.A[0].W <= 0 || c.A[0].W > 64 {
+		return false
+	}
+	a, b := c.A[0], c.A[1]
+	switch c.Op {
+	case OSlt: // a < b ; negated: b <= a
+		if !neg {
+			if a.IsConst() {
+				return setLo(b, float64(a.SInt())+1)
+			}
+			if b.IsConst() {
+				return setHi(a, float64(b.SInt())-1)
+			}
+		} else {
+			if a.IsConst() {
+				return setHi(b, float64(a.SInt()))
+			}
+			if b.IsConst() {
+				return setLo(a, float64(b.SInt()))
+			}
+		}
+	case OSle: // a <= b ; negated: b < a
+		if !neg {
+			if a.IsConst() {
+				return setLo(b, float64(a.SInt()))
+			}
+			if b.IsConst() {
+				return setHi(a, float64(b.SInt()))
+			}
+		} else {
+			if a.IsConst() {
+				return setHi(b, float64(a.SInt())-1)
+			}
+			if b.IsConst() {
+				return setLo(a, float64(b.SInt())+1)
+			}
+		}
+	case OEq:
+		if !neg && b.IsConst() {
+			x := setLo(a, float64(b.SInt()))
+			y := setHi(a, float64(b.SInt()))
+			return x || y
+		}
+	}
+	return false
 }
 
 func NewIntervals(vb func(string) (float64, float64, bool)) *Intervals {
-	return &Intervals{VarBounds: vb, memo: map[uint64]Interval{}}
+	return &Intervals{VarBounds: vb, memo: map[uint64]Interval{}, RefLo: map[uint64]float64{}, RefHi: map[uint64]float64{}}
 }
 
 const safeInt = 4.0e18 // below 2^62: sums and products checked against this cannot wrap int64
 
 func widen(lo, hi float64) (float64, float64) {
 	// outward rounding by a few ulps
-	return lo - math.Abs(lo)*1e-15 - 1e-300, hi + math.Abs(hi)*1e-15 + 1e-300
+	return lo - math.Abs(lo)*1e-15, hi + math.Abs(hi)*1e-15
 }
 
 func corners(a, b Interval, f func(x, y float64) float64) Interval {
@@ -47,10 +129,30 @@ func (ia *Intervals) Of(t *Term) Interval {
 		return r
 	}
 	r := ia.of(t)
+	if t.W > 0 && t.W <= 64 {
+		lo, hasLo := ia.RefLo[t.ID]
+		hi, hasHi := ia.RefHi[t.ID]
+		switch {
+		case r.OK:
+			if hasLo && lo > r.Lo {
+				r.Lo = lo
+			}
+			if hasHi && hi < r.Hi {
+				r.Hi = hi
+			}
+			if r.Lo > r.Hi { // contradictory facts: the path is infeasible anyway
+				r.Hi = r.Lo
+			}
+		case hasLo && hasHi:
+			r = Interval{lo, hi, true}
+		}
+	}
 	if r.OK && (math.IsNaN(r.Lo) || math.IsNaN(r.Hi) || math.IsInf(r.Lo, 0) || math.IsInf(r.Hi, 0)) {
 		r = Interval{}
 	}
 	if r.OK && t.W > 0 && t.W <= 64 {
+		// integer-valued: snap the outward-rounded bounds back to integers
+		r.Lo, r.Hi = math.Floor(r.Lo+0.01), math.Ceil(r.Hi-0.01)
 		// must fit the signed range of the width without wrapping
 		lim := math.Ldexp(1, t.W-1)
 		if lim > safeInt {
@@ -106,11 +208,30 @@ func (ia *Intervals) of(t *Term) Interval {
 		if a.OK && b.OK {
 			return corners(a, b, func(x, y float64) float64 { return x * y })
 		}
-	case OSDiv, OFDiv:
+	case OSDiv, OUDiv, OFDiv:
+		if t.Op == OUDiv && !(a.OK && a.Lo >= 0 && b.OK && b.Lo >= 0) {
+			return Interval{}
+		}
+		if t.Op != OFDiv && b.OK {
+			// integer division: the engine forks on "divisor == 0" before every
+			// division (the zero side panics), so under any path condition that
+			// contains the term the divisor is non-zero
+			if b.Lo == 0 && b.Hi > 0 {
+				b.Lo = 1
+			} else if b.Hi == 0 && b.Lo < 0 {
+				b.Hi = -1
+			}
+		}
 		if a.OK && b.OK && (b.Lo > 0 || b.Hi < 0) {
 			r := corners(a, b, func(x, y float64) float64 { return x / y })
-			if t.Op == OSDiv && r.OK {
-				r.Lo, r.Hi = math.Floor(r.Lo)-1, math.Ceil(r.Hi)+1
+			if t.Op != OFDiv && r.OK {
+				r.Lo, r.Hi = math.Floor(r.Lo), math.Ceil(r.Hi)
+				if r.Lo > 0 {
+					r.Lo = 0
+				}
+				if r.Hi < 0 {
+					r.Hi = 0
+				}
 			}
 			return r
 		}
@@ -157,8 +278,11 @@ func (ia *Intervals) of(t *Term) Interval {
 		if t.Aux == 0 && a.OK {
 			return a // range check against the narrower width happens in Of
 		}
-	case OSRem:
-		if a.OK && b.OK && (b.Lo > 0 || b.Hi < 0) {
+	case OSRem, OURem:
+		if t.Op == OURem && !(a.OK && a.Lo >= 0 && b.OK && b.Lo >= 0) {
+			return Interval{}
+		}
+		if a.OK && b.OK {
 			m := math.Max(math.Abs(b.Lo), math.Abs(b.Hi))
 			lo, hi := -m, m
 			if a.Lo >= 0 {
@@ -172,3 +296,6 @@ func (ia *Intervals) of(t *Term) Interval {
 	}
 	return Interval{}
 }
+
+// Invalidate drops memoised results (after new refinements were learned).
+func (ia *Intervals) Invalidate() { ia.memo = map[uint64]Interval{} }
